@@ -188,3 +188,48 @@ if __name__ == '__main__':
     elif a[0] == 'detect': cmd_detect([x for x in a[1:] if not x.startswith('--')], all_props='--all-props' in a)
     elif a[0] == 'sdetect': cmd_detect_scratch([x for x in a[1:] if not x.startswith('--')], all_props='--all-props' in a)
     elif a[0] == 'table': cmd_table()
+
+
+def _benign_one(i):
+    import shutil
+    BEN = os.path.join(VERIF, 'benign')
+    sd = os.path.join(VERIF, 'out', 'scratch', 'benign-' + i)
+    shutil.rmtree(sd, ignore_errors=True); os.makedirs(sd)
+    try:
+        for d in ('include', 'source'): shutil.copytree(os.path.join('/repo', d), os.path.join(sd, d))
+        rc, out = sh('patch -p1 -s -d %s < %s' % (sd, os.path.join(BEN, i, 'patch.diff')))
+        if rc != 0: return i, None, 'patch does not apply: ' + out[-200:]
+        man = json.load(open(os.path.join(VERIF, 'MANIFEST.json')))
+        res = {}
+        for c in man['checks']:
+            p = c['property_id']
+            rc, out = sh('python3 -m usa.check %s --no-write --repo %s' % (p, sd), cwd=VERIF, timeout=1800)
+            if rc != 0:
+                res[p] = (rc, [l.strip()[:260] for l in out.splitlines() if l.startswith('  R-') or 'BROKEN' in l][:4])
+        return i, res, ''
+    finally:
+        shutil.rmtree(sd, ignore_errors=True)
+
+
+def cmd_benign(ids, jobs=3):
+    """behaviour-preserving refactorings (benign/<id>/patch.diff, written by independent sub-agents): every check must stay silent"""
+    from concurrent.futures import ThreadPoolExecutor
+    BEN = os.path.join(VERIF, 'benign')
+    if not ids: ids = sorted(d for d in os.listdir(BEN) if os.path.isdir(os.path.join(BEN, d)))
+    bad = 0
+    with ThreadPoolExecutor(max_workers=jobs) as ex:
+        for i, res, err in ex.map(_benign_one, ids):
+            if res is None: print(i, err); continue
+            if res:
+                bad += 1
+                print(i, 'FALSE-ALARM')
+                for p, (rc, lines) in res.items():
+                    print('   ', p, 'rc=%d' % rc)
+                    for l in lines: print('       ', l)
+            else:
+                print(i, 'silent (all %d checks exit 0)' % 20)
+    print('%d patches, %d with alarms' % (len(ids), bad))
+
+
+if __name__ == '__main__' and sys.argv[1:2] == ['benign']:
+    cmd_benign([x for x in sys.argv[2:] if not x.startswith('--')])
